@@ -215,6 +215,30 @@ func checkC14(r *Report, known []Finding) {
 		}
 		dump := dumpNFA(n)
 		pike := nfa.NewPikeVM(n)
+		pikeL := nfa.NewPikeVM(n)
+		// hypotheses of the Pike theorems, decided on the dumped NFA
+		hypOK := n.StartAnchored() != n.StartUnanchored()
+		for si := 0; si < n.States(); si++ {
+			st := n.State(nfa.StateID(si))
+			switch st.Kind() {
+			case nfa.StateRuneAny, nfa.StateRuneAnyNotNL:
+				hypOK = false
+			case nfa.StateSparse:
+				ts := st.Transitions()
+				for a := range ts {
+					for b := a + 1; b < len(ts); b++ {
+						if ts[a].Lo <= ts[b].Hi && ts[b].Lo <= ts[a].Hi {
+							hypOK = false
+						}
+					}
+				}
+			}
+		}
+		if hypOK {
+			r.Dist["pike-theorem-hypotheses-hold"]++
+		} else {
+			r.Dist["pike-theorem-hypotheses-fail(anchored/overlapping sparse/rune states)"]++
+		}
 		bt := nfa.NewBoundedBacktracker(n)
 		btState := nfa.NewBacktrackerState()
 		// lazy DFA configurations: tiny caches force clears and fallbacks
@@ -283,7 +307,18 @@ func checkC14(r *Report, known []Finding) {
 					s, e, ok := bt.SearchAtWithState(h, at, btState)
 					return spanStr(s, e, ok)
 				})
+				// the Lean Pike model (proved equal to the reference under hypotheses checked below) against the real VM
+				add("pikevm", "SearchWithSlotTableAt~model", "", fmt.Sprintf("pike search %d %s %s", at, hexOf(h), dump), func() string {
+					s, e, ok := pike.SearchWithSlotTableAt(h, at, nfa.SearchModeFind)
+					return spanStr(s, e, ok)
+				})
+				add("pikevm", "SearchWithSlotTableAt(longest)~model", "", fmt.Sprintf("pike longest %d %s %s", at, hexOf(h), dump), func() string {
+					pikeL.SetLongest(true)
+					s, e, ok := pikeL.SearchWithSlotTableAt(h, at, nfa.SearchModeFind)
+					return spanStr(s, e, ok)
+				})
 				if at == 0 {
+					add("pikevm", "IsMatch~model", "", fmt.Sprintf("pike ismatch 0 %s %s", hexOf(h), dump), func() string { return fmt.Sprint(pike.IsMatch(h)) })
 					reqM := fmt.Sprintf("bt ismatch 0 %s %s", hexOf(h), dump)
 					add("pikevm", "IsMatch", "", reqM, func() string { return fmt.Sprint(pike.IsMatch(h)) })
 					add("backtracker", "IsMatchWithState", "", reqM, func() string {
